@@ -153,13 +153,39 @@ func invokesOf(fns []*ssa.Function, ifaceMethod ...string) []ssa.Instruction {
 
 // dominatedByCall: some call to one of fns dominates i (same function).
 func dominatedByCall(i ssa.Instruction, fns ...*ssa.Function) *ssa.Call {
+	return dominatedByCallD(i, 0, fns...)
+}
+
+func dominatedByCallD(i ssa.Instruction, depth int, fns ...*ssa.Function) *ssa.Call {
 	fn := i.Parent()
 	var found *ssa.Call
+	isTarget := func(j ssa.Instruction) bool { return callsFn(j, fns...) }
 	eachInstr(fn, false, func(_ *ssa.Function, j ssa.Instruction) {
-		if c, ok := j.(*ssa.Call); ok && callsFn(c, fns...) && instrDominates(c, i) {
+		c, ok := j.(*ssa.Call)
+		if !ok || found != nil {
+			return
+		}
+		if callsFn(c, fns...) && instrDominates(c, i) {
+			found = c
+			return
+		}
+		// a private helper of this function that makes the call on every path
+		if g := c.Call.StaticCallee(); g != nil && g.Blocks != nil && depth < 2 && isSatelliteOf(g, topFunc(fn)) && instrDominates(c, i) && !existsPath(g, nil, nil, isTarget) {
 			found = c
 		}
 	})
+	if found != nil || depth >= 2 {
+		return found
+	}
+	// i is in a private helper: the call dominates every place the helper is called from
+	sites := privateCallSites(fn)
+	for _, s := range sites {
+		c := dominatedByCallD(s, depth+1, fns...)
+		if c == nil {
+			return nil
+		}
+		found = c
+	}
 	return found
 }
 
@@ -474,7 +500,7 @@ func closureOfArg(v ssa.Value) *ssa.Function {
 	for d := 0; d < 5; d++ {
 		switch x := v.(type) {
 		case *ssa.MakeClosure:
-			return x.Fn.(*ssa.Function)
+			return unboundMethod(x.Fn.(*ssa.Function))
 		case *ssa.Function:
 			return x
 		case *ssa.ChangeType:
@@ -486,6 +512,19 @@ func closureOfArg(v ssa.Value) *ssa.Function {
 		}
 	}
 	return nil
+}
+
+// unboundMethod: for the synthetic wrapper of a method value (recv.method used as a function) the method itself
+// (whose first parameter is then the receiver); any other function is returned as it is.
+func unboundMethod(f *ssa.Function) *ssa.Function {
+	if f != nil && strings.HasPrefix(f.Synthetic, "bound method wrapper") && theProg != nil {
+		if m, ok := f.Object().(*types.Func); ok {
+			if g := theProg.SSA.FuncValue(m); g != nil && g.Blocks != nil {
+				return g
+			}
+		}
+	}
+	return f
 }
 
 // mapRangeLoops finds `for k, v := range m` loops over maps: header is the block holding the Next.
